@@ -716,5 +716,22 @@ def decision_census(ctx, group):
                "the decision to perform `%s` depends only on the inputs it depended on (%s)%s" % (
                    k.split("|")[1], ", ".join(base[k]) or "none: unconditional",
                    "; NEW input(s): " + ", ".join(new) if new else ""), sites[k][:3])
+    # fewer sites of an effect in a function than when the baseline was taken (one of two polls / pushes / notifications removed)
+    cnts = (_DI.get("__counts__") or {}).get(group, {})
+    for k, want in sorted(cnts.items()):
+        if k in today and len(sites[k]) < want:
+            ctx.ob("effect-sites-not-fewer|%s|%s" % (group, k), False,
+                   "`%s` had %d call site(s) of `%s` when the baseline was taken and has %d now: an effect site was removed" % (
+                       k.split("|")[0], want, k.split("|")[1], len(sites[k])), sites[k][:3])
+    # an effect that a known function performed when the baseline was taken and no longer performs at all
+    names = set(b.name for b in ctx.prog.all_bodies())
+    for k in sorted(base):
+        if k in today:
+            continue
+        fn = k.split("|")[0]
+        if fn in names:
+            ctx.ob("effect-still-performed|%s|%s" % (group, k), False,
+                   "`%s` no longer calls `%s` (recorded in the decision-input baseline: the effect was performed there, decided by: %s)" % (
+                       fn, k.split("|")[1], ", ".join(base[k]) or "nothing, unconditionally"), [fn])
     if n < max(1, len(base) // 2):
         ctx.missing("decision-input census %s: only %d of %d recorded effect sites found" % (group, n, len(base)))
